@@ -5,19 +5,19 @@ from harness import rfworld as W
 from harness.rfworld import RFWorld
 
 
-def run_history(V, prop, steps=5, nreq=3, pool_kind='v3', factory_preempt=False, race=None):
+def run_history(V, prop, steps=5, nreq=3, pool_kind='v3', factory_preempt=False, race=None, use_fault=False):
     cap = V.pick('max_in_flight', [2, 3])
     thr = V.pick('orphan_threshold', [1, 2])
     kit.FakeConnection.max_in_flight = cap
     kit.FakeConnection.orphaned_threshold = thr
     try:
-        return _run(V, prop, steps, nreq, factory_preempt, race)
+        return _run(V, prop, steps, nreq, factory_preempt, race, use_fault)
     finally:
         kit.FakeConnection.max_in_flight = 2 ** 15
         kit.FakeConnection.orphaned_threshold = 3 * (2 ** 15) // 4
 
 
-def _run(V, prop, steps, nreq, factory_preempt, race=None):
+def _run(V, prop, steps, nreq, factory_preempt, race=None, use_fault=False):
     world = RFWorld(V, n_hosts=1, protocol_version=4)
     host = world.hosts[0]
     pool = world.pools[host]
@@ -42,8 +42,23 @@ def _run(V, prop, steps, nreq, factory_preempt, race=None):
             state['shutdown_in_factory'] = True
         c = orig_factory(endpoint, *a, **k)
         c.close = close.__get__(c)
+        if use_fault:
+            # the session has a keyspace: the pool issues USE on every connection it opens.  Contract of
+            # Connection.set_keyspace_blocking (read from /repo): an InvalidRequest answer (the keyspace is gone) is
+            # raised to the caller and leaves the connection open; any other failure defuncts the connection
+            n = world.w.factory_calls
+
+            def set_keyspace_blocking(keyspace, _c=c, _n=n):
+                if _n <= 3 and V.flag('use_rejected_on_connection_%d' % _n):
+                    from cassandra import InvalidRequest
+                    raise InvalidRequest('Keyspace %r does not exist' % (keyspace,))
+                _c.keyspace = keyspace
+            c.set_keyspace_blocking = set_keyspace_blocking
         return c
     world.cluster.connection_factory = factory
+    if use_fault:
+        pool._keyspace = 'ks1'
+        first.keyspace = 'ks1'
     current = [None]        # kind of the history event being executed (the thread that is pre-empted)
     # ---- sync-point pre-emption (one per history): another thread runs at a lock acquire/release of the named function
     if race == 'timeout-response':
